@@ -413,6 +413,126 @@ func c14OrderProbeKey[T any](c *Ctx, label, key string, shares []T, add func(a, 
 	c.Probe("agg_order_indep", fmt.Sprintf("%s N=%d evals=%d", label, n, cnt), key, strings.ReplaceAll(detail, " ", "_"))
 }
 
+// c14RolesProbe: AggregateShares under every assignment of operands and receiver.  The reference values
+// a+b and a+a are computed into fresh receivers from deep (serialization round trip) copies; then, on deep
+// copies again, out = share1, out = share2 (the running aggregate as SECOND operand and receiver:
+// AggregateShares(incoming, acc, &acc)), share1 = share2 with a fresh receiver, share1 = share2 = out, and
+// the running chains acc = acc + s_i / acc = s_i + acc over all shares.  The operand that is not the
+// receiver must come back unchanged.
+func c14RolesProbe[T any](c *Ctx, fn, label string, shares []T, add func(a, b T) (T, error), call func(a, b T, out *T) error,
+	rt func(T) (T, error), eq func(a, b T) bool) {
+	n := len(shares)
+	detail := ""
+	fail := func(f string, a ...interface{}) {
+		if detail == "" {
+			detail = strings.ReplaceAll(fmt.Sprintf(f, a...), " ", "_")
+		}
+	}
+	cp := func(x T) T {
+		y, err := rt(x)
+		if err != nil {
+			fail("serialization round trip failed: %v", err)
+			return x
+		}
+		return y
+	}
+	must := func(role string, err error) {
+		if err != nil {
+			fail("%s: error %v", role, err)
+		}
+	}
+	a := shares[0]
+	b := shares[n-1]
+	if n > 1 {
+		b = shares[1]
+	}
+	refAB, err := add(cp(a), cp(b))
+	must("fresh_receiver a+b", err)
+	refBA, err := add(cp(b), cp(a))
+	must("fresh_receiver b+a", err)
+	refAA, err := add(cp(a), cp(a))
+	must("fresh_receiver a+copy(a)", err)
+	if detail == "" && !eq(refAB, refBA) {
+		fail("fresh receiver: a+b differs from b+a")
+	}
+	cases := 0
+	if detail == "" {
+		// out = share1
+		x, y := cp(a), cp(b)
+		must("out=share1", call(x, y, &x))
+		if !eq(x, refAB) {
+			fail("AggregateShares(a,b,&a) differs from a+b computed into a fresh receiver")
+		}
+		if !eq(y, b) {
+			fail("AggregateShares(a,b,&a) modified b")
+		}
+		// out = share2: the running aggregate as second operand and receiver
+		x, y = cp(a), cp(b)
+		must("out=share2", call(x, y, &y))
+		if !eq(y, refAB) {
+			if eq(y, refAA) {
+				fail("AggregateShares(incoming,acc,&acc) returns 2*incoming: acc overwritten before it is read")
+			}
+			fail("AggregateShares(incoming,acc,&acc) differs from incoming+acc computed into a fresh receiver")
+		}
+		if !eq(x, a) {
+			fail("AggregateShares(incoming,acc,&acc) modified incoming")
+		}
+		// share1 = share2, fresh receiver (the same object twice)
+		x = cp(a)
+		got, err := add(x, x)
+		must("share1=share2", err)
+		if !eq(got, refAA) {
+			fail("AggregateShares(a,a,&fresh) differs from a+copy(a)")
+		}
+		if !eq(x, a) {
+			fail("AggregateShares(a,a,&fresh) modified a")
+		}
+		// share1 = share2 = out
+		x = cp(a)
+		must("share1=share2=out", call(x, x, &x))
+		if !eq(x, refAA) {
+			fail("AggregateShares(a,a,&a) differs from a+copy(a)")
+		}
+		// fresh receiver holding garbage (an earlier aggregate) is overwritten, not accumulated into
+		x, y = cp(a), cp(b)
+		o := cp(refAA)
+		must("dirty receiver", call(x, y, &o))
+		if !eq(o, refAB) {
+			fail("AggregateShares(a,b,&dirty) depends on the previous content of the receiver")
+		}
+		cases = 5
+	}
+	if detail == "" && n > 1 {
+		id := make([]int, n)
+		for i := range id {
+			id[i] = i
+		}
+		ref, err := c14Eval(c14Comb(id), shares, add)
+		must("reference chain", err)
+		for v := 0; v < 2 && detail == ""; v++ {
+			acc := cp(shares[0])
+			for i := 1; i < n && detail == ""; i++ {
+				in := cp(shares[i])
+				if v == 0 {
+					must("chain acc=acc+s_i", call(acc, in, &acc))
+				} else {
+					must("chain acc=s_i+acc", call(in, acc, &acc))
+				}
+				if !eq(in, shares[i]) {
+					fail("running aggregation modified the incoming share %d", i)
+				}
+			}
+			if detail == "" && !eq(acc, ref) {
+				fail("running aggregation %s over %d shares differs from the fresh-receiver aggregate", []string{"AggregateShares(acc,s_i,&acc)", "AggregateShares(s_i,acc,&acc)"}[v], n)
+			}
+			cases++
+		}
+	}
+	c.Count("agg_roles_checked:" + strings.Fields(label)[0])
+	c.Probe("agg_operand_roles", fmt.Sprintf("%s N=%d cases=%d", label, n, cases), "C14/"+fn+".AggregateShares/operand-aliasing", detail)
+}
+
 // ---------------------------------------------------------------------------------------------
 // parties
 
@@ -512,6 +632,17 @@ func genC14(c *Ctx) {
 	if c.Thorough() {
 		ns = []int{1, 2, 3, 4, 5, 6, 7, 8}
 	}
+	// the CRS rewound with Reset(): small rings and rejection-heavy primes
+	for _, set := range c14CRSSets() {
+		c14Guard(c, "C14-harness-panic", "c14CRSReset", func() { c14CRSReset(c, set) })
+		c14Guard(c, "C14-harness-panic", "c14CRSDeterminism", func() { c14CRSDeterminism(c, set) })
+		if set.nRing <= 32 || c.Thorough() {
+			c14Guard(c, "C14-harness-panic", "c14CRSResetParties", func() { c14CRSResetParties(c, set, 2) })
+		}
+		if set.nRing <= 32 { // (the tie line carries the byte stream: small rings only)
+			c14Guard(c, "C14-harness-panic", "c14CRSTie", func() { c14CRSTie(c, set) })
+		}
+	}
 	for _, set := range c14Sets() {
 		c14Guard(c, "C14-harness-panic", "c14CRSDeterminism", func() { c14CRSDeterminism(c, set) })
 		for i := 0; i < c.Scale(2, 8); i++ {
@@ -551,6 +682,8 @@ func genC14(c *Ctx) {
 		for _, g := range c14AllGalEls(set) {
 			c14Guard(c, "C14-harness-panic", "c14GALEl", func() { c14GALEl(c, set, 2, gcfg, g) })
 		}
+		c14Guard(c, "C14-harness-panic", "c14CRSReset", func() { c14CRSReset(c, set) })
+		c14Guard(c, "C14-harness-panic", "c14CRSResetParties", func() { c14CRSResetParties(c, set, 2+c.rng.Intn(2)) })
 		c14Guard(c, "C14-harness-panic", "c14Mismatch", func() { c14Mismatch(c, set) })
 		c14Guard(c, "C14-harness-panic", "c14ScratchAll", func() { c14ScratchAll(c, set) })
 	}
@@ -790,6 +923,11 @@ func c14CPK(c *Ctx, set c14Set, n int) {
 	}
 	eq := func(x, y multiparty.PublicKeyGenShare) bool { return x.Value.Equal(&y.Value) }
 	c14OrderProbe(c, "cpk set="+set.name, shares, add, rt, eq)
+	c14RolesProbe(c, "PublicKeyGenProtocol", "cpk set="+set.name, shares, add,
+		func(x, y multiparty.PublicKeyGenShare, o *multiparty.PublicKeyGenShare) error {
+			protos[0].AggregateShares(x, y, o)
+			return nil
+		}, rt, eq)
 
 	// tie: aggregation along two trees
 	ord := c14RandPerm(c, n)
@@ -938,6 +1076,10 @@ func c14EVK(c *Ctx, set c14Set, n int, cfg c14Evk) {
 		return y, err
 	}
 	c14OrderProbe(c, "evk set="+set.name+" "+cfg.String(), shares, add, rt, c14EvkShareEq)
+	c14RolesProbe(c, "EvaluationKeyGenProtocol", "evk set="+set.name+" "+cfg.String(), shares, add,
+		func(x, y multiparty.EvaluationKeyGenShare, o *multiparty.EvaluationKeyGenShare) error {
+			return protos[0].AggregateShares(x, y, o)
+		}, rt, c14EvkShareEq)
 
 	t := c14RandTree(c, c14RandPerm(c, n))
 	agg, _ := c14Eval(t, shares, add)
@@ -1133,6 +1275,10 @@ func c14GALEl(c *Ctx, set c14Set, n int, cfg c14Evk, galEl uint64) {
 		return x.GaloisElement == y.GaloisElement && c14EvkShareEq(x.EvaluationKeyGenShare, y.EvaluationKeyGenShare)
 	}
 	c14OrderProbe(c, "gal set="+set.name+" "+cfg.String(), shares, add, rt, eq)
+	c14RolesProbe(c, "GaloisKeyGenProtocol", "gal set="+set.name+" "+cfg.String(), shares, add,
+		func(x, y multiparty.GaloisKeyGenShare, o *multiparty.GaloisKeyGenShare) error {
+			return protos[0].AggregateShares(x, y, o)
+		}, rt, eq)
 
 	t := c14RandTree(c, c14RandPerm(c, n))
 	agg, _ := c14Eval(t, shares, add)
@@ -1313,6 +1459,11 @@ func c14RKG(c *Ctx, set c14Set, n int, cfg c14Evk) {
 		return x.GadgetCiphertext.Equal(&y.GadgetCiphertext)
 	}
 	c14OrderProbe(c, "rkg1 set="+set.name+" "+cfg.String(), r1, add, rt, eq)
+	c14RolesProbe(c, "RelinearizationKeyGenProtocol", "rkg1 set="+set.name+" "+cfg.String(), r1, add,
+		func(x, y multiparty.RelinearizationKeyGenShare, o *multiparty.RelinearizationKeyGenShare) error {
+			protos[0].AggregateShares(x, y, o)
+			return nil
+		}, rt, eq)
 
 	t := c14RandTree(c, c14RandPerm(c, n))
 	agg1, _ := c14Eval(t, r1, add)
@@ -1346,6 +1497,11 @@ func c14RKG(c *Ctx, set c14Set, n int, cfg c14Evk) {
 		c.Count("rkg_r2")
 	}
 	c14OrderProbe(c, "rkg2 set="+set.name+" "+cfg.String(), r2, add, rt, eq)
+	c14RolesProbe(c, "RelinearizationKeyGenProtocol", "rkg2 set="+set.name+" "+cfg.String(), r2, add,
+		func(x, y multiparty.RelinearizationKeyGenShare, o *multiparty.RelinearizationKeyGenShare) error {
+			protos[0].AggregateShares(x, y, o)
+			return nil
+		}, rt, eq)
 
 	t2 := c14RandTree(c, c14RandPerm(c, n))
 	agg2, _ := c14Eval(t2, r2, add)
